@@ -221,7 +221,10 @@ Definition is_connected_owner (s : state) (user : bool) : bool :=
   match st s with Connected => negb user || neg_done s | _ => false end.
 
 (* _send_raw: append, and the <r/> piggy-back *)
-Definition q_append (w : welem) (user smown : bool) (s : state) : state :=
+Definition q_append (w : welem) (user smown0 : bool) (s : state) : state :=
+  (* library elements queued before stream management is enabled precede <enable/> on the wire:
+     _send_raw turns their owner into SM_STROPHE so that they are never counted nor retained *)
+  let smown := smown0 || (negb user && negb (sm_enabled s)) in
   let s1 := set_sendq (sendq s ++ [(w, user, smown)]) s in
   if negb smown && sm_enabled s1 && negb (sm_r_sent s1) then
     set_sendq (sendq s1 ++ [(WReq, false, true)]) (set_sm_r_sent true s1)
@@ -408,7 +411,7 @@ Definition call_handler (k : hkind) (now : Z) (e : elem) (s : state) : state * e
   | HUser => (s, [OUserHandler], true)
   | HError => (set_stream_error (Some (e_cond e, e_text e)) s, [], true)
   | HFeatures =>
-      let s0 := timed_del TMissingFeatures s in
+      let s0 := timed_del TMissingFeaturesSasl (timed_del TMissingFeatures s) in
       let s1 := if secured s0 then s0
                 else if f_tls_disabled s0 then set_tls_support false s0
                 else if e_starttls e then set_tls_support true s0 else s0 in
@@ -446,7 +449,7 @@ Definition call_handler (k : hkind) (now : Z) (e : elem) (s : state) : state * e
       end
   | HFeaturesSasl => let '(s1, o) := features_sasl now e s in (s1, o, false)
   | HFeaturesCompress =>
-      let s0 := timed_del TMissingFeatures s in
+      let s0 := timed_del TMissingFeaturesSasl s in
       let s1 := if f_comp_allowed s0 && e_zlib e then set_comp_supported true s0 else s0 in
       if comp_supported s1 then (h_add HCompressResult (send_raw_m WCompress false false s1), [], false)
       else let '(s2, o) := features_sasl now e s1 in (s2, o, false)
@@ -544,9 +547,11 @@ Definition idk_of (i : eid) : option idk :=
 
 Definition filter_match (k : hkind) (e : elem) : bool :=
   let '(fns, fname) := hfilter k in
+  (* library handlers match the element's own namespace only (the child-namespace match of
+     handler_fire_stanza is reserved to user handlers, whose filter here is empty) *)
   (match fns with
    | None => true
-   | Some n => ns_eqb n (e_ns e) || existsb (ns_eqb n) (e_childns e)
+   | Some n => ns_eqb n (e_ns e)
    end) &&
   (match fname with None => true | Some n => ename_eqb n (e_name e) end).
 
@@ -597,9 +602,9 @@ Definition dispatch (now : Z) (e : elem) (s0 : state) : R :=
 Definition open_handler (now : Z) (s : state) : R :=
   match oh s with
   | OpenAuth => ret (timed_add TMissingFeatures now (h_add HFeatures (h_add HError (timed_reset_all now s))))
-  | OpenTls => ret (timed_add TMissingFeatures now (h_add HFeatures s))
+  | OpenTls => ret (timed_add TMissingFeaturesSasl now (h_add HFeatures s))
   | OpenSasl => ret (timed_add TMissingFeaturesSasl now (h_add HFeaturesSasl s))
-  | OpenCompress => ret (timed_add TMissingFeatures now (h_add HFeaturesCompress s))
+  | OpenCompress => ret (timed_add TMissingFeaturesSasl now (h_add HFeaturesCompress s))
   | OpenComponent =>
       let s1 := timed_add TMissingHandshake now (h_add HComponentHs (h_add HError (timed_reset_all now s))) in
       if stream_id s1 then ret (send_gated WHandshake false true s1) else ret (xmpp_disconnect now s1)
@@ -795,7 +800,9 @@ Definition conn_connect (now : Z) (t : ctype) (s : state) : state * emit * Z :=
 Definition connect_client (now : Z) (s0 : state) : state * emit * Z :=
   (* without a jid, the single xmppAddr of the client certificate is used (the harness certificate has one) *)
   let s := if negb (jid_set s0) && cert_set s0 then set_jid_res false (set_jid_node true (set_jid_set true s0)) else s0 in
-  if negb (jid_set s) then (s, [], XMPP_EINVOP) else conn_connect now TClient s.
+  if negb (jid_set s) then (s, [], XMPP_EINVOP)
+  else (* sock_new() rebuilds the candidate list before _conn_connect() looks at the state *)
+       conn_connect now TClient (set_cands (next_cands s) s).
 
 Definition connect_component (now : Z) (s : state) : state * emit * Z :=
   if negb (jid_set s && pass_set s) then (s, [], XMPP_EINVOP)
@@ -803,7 +810,7 @@ Definition connect_component (now : Z) (s : state) : state * emit * Z :=
     let w := flags_readback s in
     let w' := if f_tls_disabled s then w else w + FLAG_DISABLE_TLS in
     let '(s1, _) := set_flags w' s in
-    if negb (f_tls_disabled s1) then (s1, [], XMPP_EINT) else conn_connect now TComponent s1.
+    if negb (f_tls_disabled s1) then (s1, [], XMPP_EINT) else conn_connect now TComponent (set_cands (next_cands s1) s1).
 
 (* the send phase of xmpp_run_once (transport accepts everything) *)
 Definition send_phase (s : state) : R :=
@@ -902,9 +909,8 @@ Definition step0 (s : state) (o : op) : R :=
       | _ => ret s
       end
   | OpEnv tn cb v => match st s with Disconnected => ret (set_tls_verdicts v (set_cb_avail cb (set_tlsnew_ok tn s))) | _ => ret s end
-  (* environment: the candidates the next sock_new() will find (xmpp_connect_*() rebuilds the list even when it
-     then refuses to connect because the object is not disconnected) *)
-  | OpCands eps => ret (set_cands eps s)
+  (* environment: the candidates the next sock_new() will find *)
+  | OpCands eps => ret (set_next_cands eps s)
   | OpConnectClient now => let '(s1, o, rc) := connect_client now s in (s1, o ++ [ORet rc])
   | OpConnectRaw now =>
       match st s with
@@ -937,7 +943,7 @@ Definition init_state : state :=
   mkState false false false false false false false false
           false false false false false false TClient
           false None
-          true false [] [] EpAccept
+          true false [] [] [] EpAccept
           Disconnected 0 0 None
           false false false false
           [] false false
